@@ -1451,7 +1451,7 @@ pub fn run(args: &[String]) {
         }
         i += 2;
     }
-    let rec = Rec::new(&out, 20);
+    let rec = Rec::new(&out, 90);
     let g = match size.as_str() {
         "small" => ReplCfg { rounds: 3, writer_ops: 3, requests: 5, max_block: 3, max_batch: 3, p_clear: 0.15, p_reopen: 0.2, subs: 1 },
         "medium" => ReplCfg { rounds: 4, writer_ops: 8, requests: 14, max_block: 64, max_batch: 6, p_clear: 0.1, p_reopen: 0.2, subs: 2 },
